@@ -199,6 +199,9 @@ def run_unit(ctx, name, **kw):
             check_is_prime(ctx, n, RN.is_prime(n), why=why)
         for n in KNOWN_BIG_PRIMES:
             check_is_prime(ctx, n, True, why="known-big-prime")
+        for n in list(range(-300, 0)) + [-65521, -65535, -65536, -65537, -65551, -(1 << 16) - 15, -(1 << 17) + 1,
+                                         -10 ** 6, -(1 << 32), -(1 << 64) - 13, -(2 ** 127 - 1)]:
+            check_is_prime(ctx, n, False, why="negative")
         # prime factors of the published deterministic base sets (a base that is a multiple of n must not
         # make a prime n look composite) and the bases themselves
         bases = [2, 3, 5, 7, 11, 13, 17, 19, 23, 29, 31, 37, 41, 61, 73, 325, 9375, 28178, 450775, 9780504,
@@ -283,6 +286,12 @@ def run_unit(ctx, name, **kw):
                 check_factorization(ctx, m * q ** 3, RN.factor(m * q ** 3))
             check_factorization(ctx, q * beyond[(beyond.index(q) + 1) % len(beyond)],
                                 RN.factor(q * beyond[(beyond.index(q) + 1) % len(beyond)]))
+        # very high powers of a prime (float logarithms lose exactness beyond ~2^2950)
+        for kk in (1000, 2954, 2955, 2956, 2957, 2958, 2960, 3005, 4096, 5000):
+            check_factorization(ctx, (1 << kk) * 3, [(2, kk), (3, 1)])
+            check_factorization(ctx, 1 << kk, [(2, kk)])
+        check_factorization(ctx, 3 ** 2000 * 5, [(3, 2000), (5, 1)])
+        check_factorization(ctx, (1 << 3005) * 1231 * 1231, [(2, 3005), (1231, 2)])
         for q in (1223, 1229):
             check_factorization(ctx, q * q, [(q, 2)])
             check_factorization(ctx, q * 1231, sorted([(q, 1), (1231, 1)]))
